@@ -33,6 +33,10 @@ impl Rng {
         }
         v
     }
+    pub fn bytes_of(&mut self, lens: &[usize]) -> Vec<u8> {
+        let n = *self.pick(lens);
+        self.bytes(n)
+    }
     pub fn fork(&mut self) -> Rng {
         Rng::new(self.next())
     }
